@@ -1,6 +1,7 @@
 package c14
 
 import (
+	"bytes"
 	"context"
 	"fmt"
 	"io/ioutil"
@@ -293,10 +294,19 @@ var putCard = func() vcard.Card {
 
 var createPayload = []byte(strings.Repeat("upload payload line\n", 64))
 
+var bigPayload []byte
+
+func uploadPayload(n int) []byte {
+	if len(bigPayload) < n {
+		bigPayload = bytes.Repeat([]byte("0123456789abcdef"), n/16+1)
+	}
+	return bigPayload[:n]
+}
+
 // invoke calls one client method against the fake and returns the raw
 // result. Everything runs on the calling goroutine (Create's upload goroutine
 // is the library's own).
-func invoke(m *minfo, hc webdav.HTTPClient) (raw interface{}, err error) {
+func invoke(m *minfo, hc webdav.HTTPClient, cs *Case) (raw interface{}, err error) {
 	ctx := context.Background()
 	switch m.Fam {
 	case "dav":
@@ -332,7 +342,19 @@ func invoke(m *minfo, hc webdav.HTTPClient) (raw interface{}, err error) {
 			if e != nil {
 				return nil, e
 			}
-			w.Write(createPayload) // may fail when the server answered early; Close decides
+			// Writes may fail when the server answered before the upload was
+			// complete; Close decides.
+			if cs.Up == nil {
+				w.Write(createPayload)
+				return nil, w.Close()
+			}
+			payload := uploadPayload(cs.Up.Size)
+			for i := 0; i < cs.Up.Writes; i++ {
+				lo, hi := i*len(payload)/cs.Up.Writes, (i+1)*len(payload)/cs.Up.Writes
+				if _, werr := w.Write(payload[lo:hi]); werr != nil && cs.Up.StopOnErr {
+					break
+				}
+			}
 			return nil, w.Close()
 		case "webdav.RemoveAll":
 			return nil, c.RemoveAll(ctx, m.Base)
